@@ -715,6 +715,28 @@ theorem decorateL_inPre (cfg : Cfg) (c : Ctx) (p : Str) (h : c.inPre ≠ 0) :
     · rw [i1.2, i2.2]
 end
 
+/-! #### formatting a formatted tree again changes nothing -/
+
+mutual
+theorem decorate_idem (cfg : Cfg) (c : Ctx) (p : Str) :
+    ∀ t : Node, decorate cfg c p (decorate cfg c p t) = decorate cfg c p t
+  | .text true s => by simp [decorate]
+  | .text false s => by
+    simp only [decorate]
+    split
+    · simp [squeeze_idem]
+    · rfl
+  | .elem k n st sc ind kids => by
+    simp only [decorate]
+    rw [decorateL_idem cfg (c.push n) n kids]
+theorem decorateL_idem (cfg : Cfg) (c : Ctx) (p : Str) :
+    ∀ l : List Node, decorateL cfg c p (decorateL cfg c p l) = decorateL cfg c p l
+  | [] => by simp [decorateL]
+  | x :: xs => by
+    simp only [decorateL]
+    rw [decorate_idem cfg c p x, decorateL_idem cfg c p xs]
+end
+
 /-! #### the indentation law (C12a) -/
 
 mutual
